@@ -212,6 +212,9 @@ m('C12', 'default-timeout-means-none', RUN, "    if timeout == -1:\n        chil
 m('C16', 'existing-echoing-spawn-not-silenced', RW, "            self.child.setecho(False)\n            self.child.waitnoecho()\n", "            pass\n",
   'a wrapper around an existing spawn leaves echo on: every result contains the command')
 
+m('C15', 'last-words-not-drained', PS, "        else:\n            # The child has exited. What it wrote before it went may still\n            # be waiting in the pty: hand that on before returning.\n            while True:\n", "        else:\n            while False:\n",
+  'revert of the interact() last-words fix')
+
 
 def main():
     os.makedirs(OUT, exist_ok=True)
